@@ -254,7 +254,7 @@ func (d *coreDriver) oneTrace(id int) error {
 
 	real := func(t int64) wt.Timestamp { return wt.Timestamp(m.B + t) }
 	val := func() []int64 {
-		if (d.prop == "C01" || d.prop == "C02" || d.prop == "C05" || d.prop == "ALL") && rnd.Intn(15) == 0 {
+		if (d.prop == "C01" || d.prop == "C02" || d.prop == "C03" || d.prop == "C05" || d.prop == "ALL") && rnd.Intn(15) == 0 {
 			return []int64{} // a NaN value: stored as (interval, NaN), which is not an empty slot
 		}
 		x := (rnd.Int63n(41) - 20) * unit
@@ -325,6 +325,11 @@ func (d *coreDriver) oneTrace(id int) error {
 		case r < 30: // single update
 			sel := selFor()
 			p := MPoint{T: ptTime(sel), V: val()}
+			if d.prop == "C01" && sel != 0 && sel < k && rnd.Intn(5) == 0 {
+				// one or more laps back in the named archive (older than its retention, inside the file's)
+				ret := lay[sel-1].Step * lay[sel-1].N
+				p.T = now - ret - rnd.Int63n(maxRet-ret)
+			}
 			if (d.prop == "C05" || d.prop == "C03" || d.prop == "ALL") && rnd.Intn(6) == 0 {
 				// an update the library must reject (dated ahead of the clock, or older than the maximum retention)
 				sel = 0
@@ -334,8 +339,8 @@ func (d *coreDriver) oneTrace(id int) error {
 					p.T = now - maxRet - rnd.Int63n(50)
 				}
 			}
-			if sel != 0 && !(p.T > now-lay[sel-1].Step*lay[sel-1].N) {
-				continue // a named archive too short for the point's age: unspecified
+			if sel != 0 && !(p.T > now-lay[sel-1].Step*lay[sel-1].N) && d.prop != "C01" {
+				continue // a named archive too short for the point's age: routing is left open (C03); for C01 it is a write like any other
 			}
 			var okv bool
 			var pan string
@@ -361,7 +366,30 @@ func (d *coreDriver) oneTrace(id int) error {
 				n = 20 + rnd.Intn(60)
 			}
 			pts := make([]MPoint, 0, n)
-			if big && rnd.Intn(3) > 0 {
+			sweep := false
+			if (d.prop == "C01" || d.prop == "C03" || d.prop == "ALL") && !big && rnd.Intn(10) == 0 {
+				// a sweep over the whole ring of a named archive: one point in every interval the retention touches - with an
+				// unaligned clock that is N+1 intervals, the oldest and the newest sharing a slot - supplied in random order
+				for try := 0; try < 4 && !sweep; try++ {
+					a := 1 + rnd.Intn(k)
+					if lay[a-1].N >= 13 && lay[a-1].N <= 100 && lay[a-1].Step >= 3 {
+						sel, sweep = a, true
+					}
+				}
+			}
+			if sweep {
+				st, np := lay[sel-1].Step, lay[sel-1].N
+				for i := int64(0); i <= np; i++ {
+					t := now - i*st
+					if i == np {
+						t = now - np*st + 1
+					}
+					if t > now-np*st {
+						pts = append(pts, MPoint{T: t, V: val()})
+					}
+				}
+				rnd.Shuffle(len(pts), func(i, j int) { pts[i], pts[j] = pts[j], pts[i] })
+			} else if big && rnd.Intn(3) > 0 {
 				sel = rnd.Intn(2) // best or the fine archive
 				n = 1024 + rnd.Intn(1500)
 				for i := 0; i < n; i++ {
@@ -370,6 +398,20 @@ func (d *coreDriver) oneTrace(id int) error {
 			} else {
 				for i := 0; i < n; i++ {
 					pts = append(pts, MPoint{T: ptTime(sel), V: val()})
+				}
+			}
+			if (d.prop == "C03" || d.prop == "ALL") && len(pts) > 0 && len(pts) < 100 && rnd.Intn(3) == 0 {
+				// the same timestamp supplied again (aligned or not, with a number or with NaN): the one supplied last counts
+				for j := 0; j < 1+rnd.Intn(3); j++ {
+					q := pts[rnd.Intn(len(pts))]
+					if rnd.Intn(2) == 0 && sel != 0 {
+						q.T -= q.T % lay[sel-1].Step // an aligned timestamp takes the merge path of the write
+					}
+					q.V = val()
+					if rnd.Intn(3) == 0 {
+						q.V = []int64{}
+					}
+					pts = append(pts, q)
 				}
 			}
 			pts = agreedOrder(pts, lay, sel, now)
